@@ -53,6 +53,15 @@ class Injector:
             return None
         if code.co_name == '__del__':
             return None     # CPython ignores exceptions (also a real KeyboardInterrupt) raised inside __del__
+        if self.extra_files:
+            f = sys._getframe(1)
+            for _ in range(8):      # ... or in anything a finalizer calls (Connection.__del__ -> _close)
+                if f is None:
+                    break
+                if f.f_code.co_name in ('__del__', '_run_finalizers', '__call__') and (
+                        f.f_code.co_name == '__del__' or 'multiprocessing/util.py' in f.f_code.co_filename):
+                    return None
+                f = f.f_back
         if not self.every_thread and threading.get_ident() != self.tid:
             return None
         self.count += 1
